@@ -275,3 +275,39 @@ func VerifH_C04_accum() {
 	}
 	checkCompiled(g, 0, 0)
 }
+
+// VerifH_C04_hvcurves: runs of three or four curves whose start and end tangents are solver-chosen to be
+// horizontal, vertical or general, so that the hvcurveto / vhcurveto / hhcurveto / vvcurveto forms (including
+// the optional fifth operand of the last curve) compete with rrcurveto in the encoder's shortest-path search.
+func VerifH_C04_hvcurves() {
+	n := 3 + verifChoose("n", verifParam("hvextra", 0)+1)
+	g := &Glyph{Name: "x", Width: 0}
+	g.Cmds = append(g.Cmds, GlyphOp{Op: OpMoveTo, Args: []float64{0, 0}})
+	x, y := 0.0, 0.0
+	tang := func(tag string, symbolic bool) (float64, float64) {
+		if symbolic {
+			// the direction in which the run ends: both components solver-chosen in {-3, 0, 3} x {-2, 0, 2}
+			dx, dy := verifDyadic(tag+"x", 0, -1, 1), verifDyadic(tag+"y", 0, -1, 1)
+			verifAssume(dx != 0 || dy != 0)
+			return 3 * dx, 2 * dy
+		}
+		// horizontal, vertical or general (case split: the encoder's candidate edges depend on nothing else)
+		switch verifChoose(tag, 3) {
+		case 0:
+			return 3, 0
+		case 1:
+			return 0, -2
+		}
+		return 3, -2
+	}
+	for i := 0; i < n; i++ {
+		ax, ay := tang("a", false)
+		cx, cy := tang("c", i == n-1)
+		x1, y1 := x+ax, y+ay
+		x2, y2 := x1+5, y1+4
+		x3, y3 := x2+cx, y2+cy
+		g.Cmds = append(g.Cmds, GlyphOp{Op: OpCurveTo, Args: []float64{x1, y1, x2, y2, x3, y3}})
+		x, y = x3, y3
+	}
+	checkCompiled(g, 0, 0)
+}
